@@ -1,0 +1,23 @@
+//go:build verif
+
+package regexp2
+
+// Verification hook for the optimized candidate finders (build tag verif, add-only): used by the
+// harness leg c03-finder under /verif to compare runner.go's findFirstCharOptimized dispatch with
+// the Coq model coq/Model/Finder.v at every position, including the modes that
+// findFirstCharDefault never routes there (LeadingString_LeftToRight is served by the Boyer-Moore
+// prefix, large LeadingSet_LeftToRight sets by the first-character loop).
+
+// VerifFindFirstCharOptimized calls shouldUseFindFirstCharOptimized and findFirstCharOptimized on a
+// runner positioned at pos (origin is what \G is bound to) and reports their answers and the
+// Runtextpos findFirstCharOptimized left. It applies no minimum-length cut-off and no anchor logic.
+func (re *Regexp) VerifFindFirstCharOptimized(rt []rune, pos, origin int) (should, handled, found bool, newpos int) {
+	r := re.getRunner()
+	defer re.putRunner(r)
+	r.verifSetup(re, rt, origin)
+	r.initMatch(nil)
+	r.Runtextpos = pos
+	should = shouldUseFindFirstCharOptimized(r)
+	handled, found = findFirstCharOptimized(r)
+	return should, handled, found, r.Runtextpos
+}
